@@ -147,6 +147,10 @@ def foreign_chunks(be):
         out.append(_iff(b"bext", bytes(602) + b"A=PCM\r\n", False))
         out.append(_iff(b"cart", b"0101" + bytes(2044) + b"tag", False))
         out.append(_iff(b"ds64", struct.pack("<QQQI", 100, 50, 25, 0), False))
+        # (round 9 covgap) exif is parsed as a LIST type with sub-chunks (exif_subchunk_parse): well-formed and damaged ones, appended so that
+        # the indices above stay what interaction_files' `keep` names
+        from . import c03detect
+        out.extend(c for (_label, c) in c03detect.exif_chunks())
     return out
 
 
@@ -160,7 +164,7 @@ def interaction_files(seed_bytes, limit=800):
     h, cl = ch
     be = seed_bytes[:4] in (b"RIFX", b"FORM")
     dic = foreign_chunks(be)
-    keep = ([0, 1, 2, 3, 4, 6, 12] if be else [0, 1, 2, 3, 4, 5, 10, 11, 12, 13])      # stateful ones
+    keep = ([0, 1, 2, 3, 4, 6, 12] if be else [0, 1, 2, 3, 4, 5, 10, 11, 12, 13, 15, 18, 25])      # stateful ones (15, 18, 25: LIST/exif well-formed / sub-chunk size larger than the LIST / unterminated emdl)
     dic = [dic[i] for i in keep if i < len(dic)]
     audio = b"SSND" if seed_bytes[:4] == b"FORM" else b"data"
     k = next((i for i, (a, b) in enumerate(cl) if seed_bytes[a:a + 4] == audio), len(cl))
